@@ -194,10 +194,27 @@ reg(Check("C08", "model_checking",
           technique="explicit-state model checking over the real handlers + exhaustive fault-point enumeration",
           engine="E2 xstate + E3 memdb", claimed=False,
           parts=[Part("acl-direct", SRV, "^TestVerifC08Acl$", instr=True, gomaxprocs=16, deadline=(300, 2400)),
-                 Part("acl-fault", SRV, "^TestVerifC08AclFault$", instr=True, gomaxprocs=16, deadline=(300, 2400))]))
+                 Part("acl-fault", SRV, "^TestVerifC08AclFault$", instr=True, gomaxprocs=16, deadline=(300, 2400)),
+                 Part("msg", SRV, "^TestVerifC08Msg$", instr=True, gomaxprocs=16, deadline=(400, 3000))]))
 
 reg(Check("C13", "model_checking",
           "(being extended) every request of the acl alphabet answered, also when any single store call fails",
           [], text=XS_NOTE, note="input product part pending", technique="explicit-state model checking + fault enumeration",
           engine="E2 xstate", claimed=False,
           parts=[Part("acl-fault", SRV, "^TestVerifC13AclFault$", instr=True, gomaxprocs=16, deadline=(300, 2400))]))
+
+MSG_RULE = ("BFS over histories of {pub by 4 users (one with forged sender header + noecho), soft/hard delete with 6 (quick) / 11 (thorough) "
+            "range lists, read/recv/kp/bogus notes with stale/valid/future ids, want/given flips of R and W, unsub/sub/leave/attach, reload} on a "
+            "group topic holding 3 messages, depth 3 quick / 4 thorough; a set-semantics reference model runs along the history; after every "
+            "transition each attached user probes {get data} with 6 range/limit shapes, {get del}, {get desc}, {get sub}")
+for _cid, _what in [("C03", "publish decision = attached AND W in want&given; a rejected publish leaves store, ids, frames and pushes untouched"),
+                    ("C04", "history = stored minus hard-deleted minus own soft-deleted within [since,before), newest first, limit; deletion = exact union; deletion log exact"),
+                    ("C09", "0<=read<=recv<=last in store, cache, {get desc}, {get sub}; marks never decrease and move only by own pub/note; relay filters"),
+                    ("C02", "fan-out to exactly the attached readers (minus noecho origin), copy fields, push recipients = R and P holders")]:
+    reg(Check(_cid, "model_checking", MSG_RULE + ". Oracle: " + _what,
+              ["canonical schedule only", "one group topic, 4 users with one session each (more sessions per user and channel readers are covered by the E1 scenarios where present)"],
+              text=XS_NOTE, note="trusted: memdb store contract, instrumenter/scheduler",
+              technique="explicit-state model checking over the real handlers against a reference model (BFS by replay)",
+              engine="E2 xstate", claimed=False,
+              parts=[Part("msg", SRV, "^TestVerif%sMsg$" % _cid, instr=True, gomaxprocs=16, deadline=(400, 3000))] +
+                    ([Part("ranges", TYPES, "^TestVerifC04Ranges$", shards=(16, 16))] if _cid == "C04" else [])))
